@@ -501,7 +501,7 @@ pub struct TailCase {
     pub method: u8,
 }
 
-fn tail_call(i: &mut TailInput<'_>, method: u8) -> String {
+fn tail_call<I: desert::BinaryInput>(i: &mut I, method: u8) -> String {
     use desert::BinaryInput;
     let e = |x: desert::Error| vcat::errinfo(&x).kind;
     match method % 14 {
@@ -546,6 +546,29 @@ pub fn check_tail(c: &TailCase, acc: &mut Acc, record: bool) -> Verdict {
             Err(p) => format!("panic {p}"),
         });
     }
+    // SliceInput's fields are public: a safe client can put the cursor anywhere, also behind the end of the slice.
+    // Whatever happens then (an error, an unwinding panic), nothing from outside the slice may show.
+    let mut moved = Vec::new();
+    for canary in [0x53u8, 0xAC] {
+        let mut buf = vec![canary; 64];
+        buf.extend_from_slice(&c.bytes);
+        buf.extend_from_slice(&[canary; 64]);
+        let beyond = c.bytes.len() + 1 + (c.method as usize % 40);
+        let r = crate::run::guarded(|| {
+            let mut i = desert::SliceInput { data: &buf[64..64 + c.bytes.len()], pos: beyond };
+            let a = tail_call(&mut i, c.method);
+            let b = tail_call(&mut i, c.method.wrapping_add(12));
+            format!("{a} / {b}")
+        });
+        moved.push(match r {
+            Ok(s) => s,
+            // the panic text names lengths and indices, which are the same in both surroundings
+            Err(p) => format!("panic {}", p.split('@').next().unwrap_or(&p)),
+        });
+    }
+    if moved[0] != moved[1] {
+        return Verdict::Fail(format!("SliceInput with its public cursor moved behind the end of a {}-byte slice returns data from outside the slice: {} with 0x53 around the buffer, {} with 0xAC around it", c.bytes.len(), moved[0], moved[1]));
+    }
     if outcomes[0] != outcomes[1] {
         return Verdict::Fail(format!("a provided BinaryInput method on a client-written input returns data from outside the bytes it was given: over {} it yields {} with 0x53 around the buffer and {} with 0xAC around it", hex(&c.bytes), outcomes[0], outcomes[1]));
     }
@@ -578,7 +601,7 @@ pub fn run_c19(cx: &Cx) -> PropResult {
     let mut r = PropResult::new(
         acc,
         "exploration",
-        "(1) client programs: witnesses from a template grammar — API path (State::store_ref -> get_ref_by_id, SerializationContext::store_ref_or_object -> get_ref_by_id, store_ref -> DeserializationContext::try_read_ref, read_bytes on SliceInput / OwnedInput / DeserializationContext, a table reference outliving its context; and programs that need DeserializationContext / SerializationContext / State to be Send or Sync) x how the referent dies (inner scope ends, drop, moved into a callee, Vec reallocation / second mutable use) x referent type (String, Vec<u8>, Box<u64>, Rc<String>) — each a crate root with #![forbid(unsafe_code)] compiled by rustc against the freshly built desert rlib; every witness has a control twin that keeps the referent alive and must compile. Oracle: the witness is rejected with a borrow/lifetime error (E0277 for the auto-trait ones); a witness that compiles refutes the property. (2) inputs to the decoding paths written with unsafe code ([T; N] for T in u8, u32, String, Vec<u16>, Option<Box<u64>>, i8, bool, () and N in 0, 1, 3, 16, 17, 33; Vec<u8> / Vec<T>; Bytes; BigInt): valid, count-mismatched, truncated and tampered encodings; every Ok must equal the reference decoder's value (content that does not come from the input is caught without a sanitizer) and must not change when the allocator pre-fills fresh heap memory with 0x53 / 0xAC (uninitialised memory reaching a result is caught without Miri); the thorough tier repeats this corpus under AddressSanitizer (libFuzzer target) and Miri. (2b) compressed blocks whose header overstates / understates the uncompressed length, read under the same allocator pre-fill oracle. (3) reads stay inside the supplied buffer: tampered and raw inputs for run-time struct declarations are decoded — by deserialize and by a tolerant client that keeps reading fields with the same AdtDeserializer after a field failed — inside two different surroundings (canary bytes 0x53 / 0xAC before and after the slice); the outcomes must be identical (a process killed by an out-of-range access is reported by the supervisor); the provided methods of the public BinaryInput trait are called on a client-written input (safe code) whose read_bytes hands out a short slice at its end, under the same two-surroundings oracle. Non-trivial = witness whose control compiles; input whose count / length differs from what the target expects.",
+        "(1) client programs: witnesses from a template grammar — API path (State::store_ref -> get_ref_by_id, SerializationContext::store_ref_or_object -> get_ref_by_id, store_ref -> DeserializationContext::try_read_ref, read_bytes on SliceInput / OwnedInput / DeserializationContext, a table reference outliving its context; and programs that need DeserializationContext / SerializationContext / State to be Send or Sync) x how the referent dies (inner scope ends, drop, moved into a callee, Vec reallocation / second mutable use) x referent type (String, Vec<u8>, Box<u64>, Rc<String>) — each a crate root with #![forbid(unsafe_code)] compiled by rustc against the freshly built desert rlib; every witness has a control twin that keeps the referent alive and must compile. Oracle: the witness is rejected with a borrow/lifetime error (E0277 for the auto-trait ones); a witness that compiles refutes the property. (2) inputs to the decoding paths written with unsafe code ([T; N] for T in u8, u32, String, Vec<u16>, Option<Box<u64>>, i8, bool, () and N in 0, 1, 3, 16, 17, 33; Vec<u8> / Vec<T>; Bytes; BigInt): valid, count-mismatched, truncated and tampered encodings; every Ok must equal the reference decoder's value (content that does not come from the input is caught without a sanitizer) and must not change when the allocator pre-fills fresh heap memory with 0x53 / 0xAC (uninitialised memory reaching a result is caught without Miri); the thorough tier repeats this corpus under AddressSanitizer (libFuzzer target) and Miri. (2b) compressed blocks whose header overstates / understates the uncompressed length, read under the same allocator pre-fill oracle. (3) reads stay inside the supplied buffer: tampered and raw inputs for run-time struct declarations are decoded — by deserialize and by a tolerant client that keeps reading fields with the same AdtDeserializer after a field failed — inside two different surroundings (canary bytes 0x53 / 0xAC before and after the slice); the outcomes must be identical (a process killed by an out-of-range access is reported by the supervisor); the provided methods of the public BinaryInput trait are called on a client-written input (safe code) whose read_bytes hands out a short slice at its end, under the same two-surroundings oracle, and so are the methods of SliceInput after its public cursor was moved behind the end of the slice. Non-trivial = witness whose control compiles; input whose count / length differs from what the target expects.",
     );
     r.lines = lines.into_inner().unwrap();
     r.assumptions = vec![
